@@ -76,9 +76,10 @@ ASSUMPTIONS = [
 ]
 SHARDS = {"quick": 4, "thorough": 16}
 BUDGET_S = {"quick": 90, "thorough": 700}
-FLOORS = {"soup.strings": 500, "soup.parses": 7000, "soup.searches": 12000, "soup.inband_errors": 400,
-          "soup.config.default": 500, "soup.config.allplugins": 500, "soup.config.dismax": 500,
-          "lang.cases": 600, "lang.nontrivial": 250, "lang.agree": 600, "simple.cases": 60}
+FLOORS = {"soup.strings": 330, "soup.parses": 4700, "soup.searches": 17000, "soup.inband_errors": 650,
+          "soup.config.default": 330, "soup.config.allplugins": 330, "soup.config.dismax": 330,
+          "soup.config.simple": 330, "soup.config.multi": 330, "soup.config.or": 330,
+          "lang.cases": 400, "lang.nontrivial": 230, "lang.agree": 400, "simple.cases": 55}
 
 VOCAB = ["alfa", "bravo", "charlie", "delta", "echo", "foxtrot", "golf", "hotel", "india", "juliet",
          "kilo", "lima", "tomato", "victor", "stop", "orbit", "band", "notes"]
